@@ -28,6 +28,7 @@ from keras_tuner import backend
 from keras_tuner import utils
 from keras_tuner.api_export import keras_tuner_export
 from keras_tuner.engine import hyperparameters as hp_module
+from keras_tuner.engine import metrics_tracking
 from keras_tuner.engine import objective as obj_module
 from keras_tuner.engine import stateful
 from keras_tuner.engine import trial as trial_module
@@ -632,6 +633,8 @@ class Oracle(stateful.Stateful):
             f"{max_run_times - self._run_times[trial_id]} "
             "retries left."
         )
+        # The next run starts from scratch: drop what the failed run reported.
+        trial.metrics = metrics_tracking.MetricsTracker()
         self._retry_queue.append(trial_id)
         return True
 
